@@ -1,6 +1,139 @@
-"""Self-validation of the checker (both ways) on scratch copies outside /repo and /verif."""
+"""Self-validation of the checker, both ways.
+
+Each rule module lists VARIANTS: single-site edits of the *current* tree, computed on the source
+text in memory (the edited module is handed to the loader as an override; nothing is written to
+/repo or /verif and nothing is executed).  A `fire` variant breaks one instance of a rule and must
+be reported by that rule; a `silent` variant is a behaviour-preserving rewrite and must not be
+reported at all.  A variant whose anchor text is not present in the current tree is skipped (the
+tree differs from the one the variant was written for) — that is reported, not failed.
+Failures of self-validation are checker bugs: exit 2 (ANALYSIS-ERROR), never a VIOLATION.
+"""
 from __future__ import annotations
 
+import importlib
+import io
+import json
+import os
+import time
+from concurrent.futures import ProcessPoolExecutor
+from contextlib import redirect_stdout
+from typing import Dict, List, Optional, Tuple
 
-def run_selftest(prop: str, repo_root: str, jobs: int = 16, quiet: bool = False) -> int:
+from .core import AnalysisError, Repo
+from .report import VERIF, Check
+
+
+def _run_variant(args) -> Tuple[str, str, str, List[str]]:
+    prop, root, name, rel, old, new, expect, rule = args
+    path = os.path.join(root, rel)
+    try:
+        src = open(path).read()
+    except OSError:
+        return name, "skipped", f"{rel} missing", []
+    if src.count(old) != 1:
+        return name, "skipped", f"anchor text occurs {src.count(old)} times in {rel}", []
+    mod = importlib.import_module(f"agilint.rules.{prop.lower()}")
+    try:
+        repo = Repo(root, overrides={rel: src.replace(old, new)})
+        ck = Check(prop, "quick", root)
+        ck.known = []  # known findings must not hide a variant's report
+        mod.run(ck, repo)
+    except AnalysisError as e:
+        # an analysis error on a broken variant counts as detection only for `fire`
+        return name, ("ok" if expect == "fire" else "FAILED"), f"analysis error: {e}", []
+    except SyntaxError as e:  # pragma: no cover
+        return name, "FAILED", f"variant does not parse: {e}", []
+    except Exception as e:  # pragma: no cover
+        return name, "FAILED", f"internal error: {type(e).__name__}: {e}", []
+    viol = [o for o in ck.obs if o.status == "violated"]
+    rules = sorted({o.rule for o in viol})
+    if expect == "fire":
+        hit = [o for o in viol if rule is None or o.rule.startswith(rule)]
+        if hit:
+            return name, "ok", f"reported by {sorted({o.rule for o in hit})} at {hit[0].file}:{hit[0].line}", rules
+        return name, "FAILED", f"not reported (violations: {rules})", rules
+    if viol:
+        o = viol[0]
+        return name, "FAILED", f"false alarm {o.rule} at {o.file}:{o.line}: {o.what}", rules
+    return name, "ok", "silent", rules
+
+
+def baseline_violations(prop: str, root: str) -> List[str]:
+    mod = importlib.import_module(f"agilint.rules.{prop.lower()}")
+    repo = Repo(root)
+    ck = Check(prop, "quick", root)
+    ck.known = []
+    mod.run(ck, repo)
+    return sorted({o.key() for o in ck.obs if o.status == "violated"})
+
+
+def run_selftest(prop: str, root: str, jobs: int = 16, quiet: bool = False) -> int:
+    try:
+        mod = importlib.import_module(f"agilint.rules.{prop.lower()}")
+    except ModuleNotFoundError:
+        return 0
+    variants = getattr(mod, "VARIANTS", [])
+    if not variants:
+        return 0
+    t0 = time.time()
+    base = baseline_violations(prop, root)
+    # on a tree that already violates (open known findings), `fire` needs a *new* report; keep it simple:
+    # compare by rule prefix and require the variant's report set to differ from the baseline for fire variants
+    tasks = [(prop, root, v[0], v[1], v[2], v[3], v[4], v[5] if len(v) > 5 else None) for v in variants]
+    results = []
+    with ProcessPoolExecutor(max_workers=min(jobs, max(1, len(tasks)))) as ex:
+        for r in ex.map(_run_variant_base, [(t, base) for t in tasks]):
+            results.append(r)
+    failed = [r for r in results if r[1] == "FAILED"]
+    skipped = [r for r in results if r[1] == "skipped"]
+    okc = [r for r in results if r[1] == "ok"]
+    summary = {
+        "variants": len(results), "ok": len(okc), "skipped": len(skipped), "failed": len(failed),
+        "fire": sum(1 for v in variants if v[4] == "fire"), "silent": sum(1 for v in variants if v[4] == "silent"),
+        "wall_s": round(time.time() - t0, 2),
+        "results": [{"variant": r[0], "status": r[1], "detail": r[2]} for r in results],
+    }
+    # append to the evidence file written by the thorough check
+    evp = os.path.join(VERIF, "evidence", f"{prop}.json")
+    if os.path.exists(evp):
+        with open(evp) as fh:
+            ev = json.load(fh)
+        ev["coverage"]["self_validation"] = summary
+        ev["wall_s"] = round(ev.get("wall_s", 0) + summary["wall_s"], 3)
+        with open(evp, "w") as fh:
+            json.dump(ev, fh, indent=1)
+    print(f"[{prop}] self-validation: {len(okc)} ok, {len(skipped)} skipped, {len(failed)} failed of {len(results)} variants "
+          f"({summary['fire']} must fire, {summary['silent']} must stay silent) in {summary['wall_s']}s")
+    if not quiet or failed:
+        for r in results:
+            if not quiet or r[1] != "ok":
+                print(f"  {r[1]:8s} {r[0]}: {r[2]}")
+    if failed:
+        print(f"ANALYSIS-ERROR property={prop}: self-validation failed for {len(failed)} variant(s) — checker bug, not a violation")
+        return 2
     return 0
+
+
+def _run_variant_base(arg):
+    task, base = arg
+    prop, root, name, rel, old, new, expect, rule = task
+    name2, status, detail, rules = _run_variant(task)
+    if status == "skipped" or not base:
+        return name2, status, detail
+    # tree already violates: judge by difference to the baseline
+    path = os.path.join(root, rel)
+    src = open(path).read()
+    mod = importlib.import_module(f"agilint.rules.{prop.lower()}")
+    try:
+        repo = Repo(root, overrides={rel: src.replace(old, new)})
+        ck = Check(prop, "quick", root)
+        ck.known = []
+        mod.run(ck, repo)
+        now = {o.key(): o for o in ck.obs if o.status == "violated"}
+    except AnalysisError as e:
+        return name2, ("ok" if expect == "fire" else "FAILED"), f"analysis error: {e}"
+    new_keys = [k for k in now if k not in base]
+    if expect == "fire":
+        hit = [k for k in new_keys if rule is None or now[k].rule.startswith(rule)]
+        return name2, ("ok" if hit else "FAILED"), (f"new report {now[hit[0]].rule}" if hit else f"no new report beyond baseline ({len(base)})")
+    return name2, ("ok" if not new_keys else "FAILED"), ("silent beyond baseline" if not new_keys else f"false alarm {now[new_keys[0]].rule}: {now[new_keys[0]].what}")
